@@ -1239,6 +1239,9 @@ struct ssl
     unsigned char *inbuf;
     unsigned char *outbuf;
     int32 inlen;                /* Bytes unprocessed in inbuf */
+    int32 inDone;               /* Bytes at the front of inbuf that the decoder
+                                   consumed for the plaintext/alert the caller
+                                   is looking at (until matrixSslProcessedData) */
     int32 outlen;               /* Bytes unsent in outbuf */
     int32 insize;               /* Total allocated size of inbuf */
     int32 outsize;              /* Total allocated size of outbuf */
